@@ -1821,14 +1821,8 @@ class Expr:
         if '"' in expr:
             expr = expr.replace('"', "'")
 
-        if expr_component.ctx_id == RC.COMPARISON_EXPR_COMP:
-            param_nodes = ExprComp().visitComparisonExprComp(expr_component)
-        elif expr_component.ctx_id == RC.IN_NOT_IN_EXPR_COMP:
-            param_nodes = ExprComp().visitInNotInExprComp(expr_component)
-        elif expr_component.ctx_id == RC.BOOLEAN_EXPR_COMP:
-            param_nodes = ExprComp().visitBooleanExprComp(expr_component)
-        else:
-            raise NotImplementedError
+        # any component expression is a valid condition (not, parentheses, isnull, if-then-else, ...)
+        param_nodes = ExprComp().visitExprComponent(expr_component)
 
         return ParamOp(
             op=op_node, children=None, params=param_nodes, **extract_token_info(ctx)
